@@ -260,9 +260,15 @@ def spec_eval(E, st, expr, env_extra=None, old_state=None):
             res = E.ev(onode, o)
         finally:
             E.spec_mode -= 1
-        if len(res) != 1 or isinstance(res[0][1], Raised):
+        good = [r for r in res if not isinstance(r[1], Raised)]
+        if not good and res:
+            frame[name] = Opaque("old() of an expression that raises on this path")
+            continue
+        if len(good) != 1:
             raise SpecError(f"old({ast.unparse(onode)}) does not evaluate to one value")
-        frame[name] = res[0][1]
+        # a None-dereference inside old() leaves the value unspecified on that side; the
+        # clause has to guard it (as in Python, where it would raise)
+        frame[name] = good[0][1]
     work.frames.append(frame)
     E.spec_mode += 1
     try:
@@ -383,7 +389,18 @@ def _isnone(E, s, args, kw):
     return [(s, mk_bool(r) if not isinstance(r, bool) else r)]
 
 
+def _final(E, s, args, kw):
+    """final('name'): value of a local variable of the function under verification when it
+    returned or raised"""
+    key = "final_locals:" + E.verifying.key
+    fr = s.ghost.get(key)
+    if fr is None or args[0] not in fr:
+        raise SpecError(f"final({args[0]!r}): no such local at exit")
+    return [(s, fr[args[0]])]
+
+
 SPEC_BUILTINS = {
+    "final": _final,
     "implies": _implies, "iff": _iff, "forall": _forall, "exists": _exists, "count": _count, "ite": _ite,
     "isnone": _isnone,
 }
